@@ -343,8 +343,38 @@ def conversions(ctx):
     f, ev = _copy_eval(ctx, R)
     # byte order from sample_byte_format
     nb = [c for c in astq.func_calls(f) if astq.attr_call(c, "newbyteorder")]
-    ctx.need(len(nb) == 1, R, "newbyteorder call not found")
     pm = astq.parents(f)
+    if not nb:
+        # byte order corrected by swapping bytes instead of through the input dtype: the swap has to be done on the stored
+        # samples (their own width); on the output array, whose dtype is the caller's and may be wider, it permutes the bytes of
+        # the widened value
+        swaps = [c for c in astq.func_calls(f) if astq.attr_call(c, "byteswap")]
+        ctx.need(swaps, R, "neither a newbyteorder nor a byteswap call found in copy_samples")
+        for c in swaps:
+            root = c.func.value
+            while isinstance(root, (ast.Subscript, ast.Attribute)):
+                root = root.value
+            defs_ = [n.value for n in f.body_nodes() if isinstance(n, ast.Assign) and isinstance(root, ast.Name) and any(astq.is_name(t_, root.id) for t_ in n.targets)]
+            kinds = set()
+            for d_ in defs_:
+                if isinstance(d_, ast.Call) and (prog.qualify(f.module, d_.func, f) or "") in ("numpy.empty", "numpy.zeros", "numpy.frombuffer", "numpy.fromfile"):
+                    dt_ = astq.kw(d_, "dtype")
+                    kinds.add(astq.text(dt_) if dt_ is not None else "?")
+                elif isinstance(d_, ast.Subscript) and astq.is_name(d_.value, root.id):
+                    continue  # trimming of the same array
+                elif isinstance(d_, ast.Call) and isinstance(d_.func, ast.Attribute) and astq.is_name(d_.func.value, root.id) and d_.func.attr in ("reshape", "ravel", "transpose"):
+                    continue  # same data, same dtype
+                else:
+                    kinds.add("?")
+            if kinds == {"dtype"}:
+                ctx.bad(R, f, c, "the byte order of foreign-endian samples is corrected by `%s` on the output array, whose dtype is the one the caller asked for: "
+                        "when that is wider than the stored samples (float64 from the command-line tools, int32) the mis-ordered value is widened first and "
+                        "then all of its bytes are swapped, so every sample of such a file decodes to garbage" % astq.text(c)[:60],
+                        "16-bit PCM in either byte order decodes to exactly the stored samples, for every requested dtype", robust=True)
+                return
+            ctx.error(R, "cannot decide the byte-order handling: byteswap on an array of dtype %s" % sorted(kinds))
+            return
+    ctx.need(len(nb) == 1, R, "newbyteorder call not found")
     v = ev.eval_at(astq.enclosing_stmt(pm, nb[0]), nb[0].args[0])
     want = S.cond(S.cmp("==", S.sym("inporder"), S.lift("10")), S.lift(">"), S.lift("<"))
     ok = v == want or v == S.cond(S.cmp("!=", S.sym("inporder"), S.lift("10")), S.lift("<"), S.lift(">")) \
